@@ -200,7 +200,70 @@ def _run_one(job):
         shutil.rmtree(d, ignore_errors=True)
 
 
+def _run_patch(job):
+    """A stored change (seeded/<id> or twins/<id>, written by an independent sub-agent) applied as a patch to a scratch copy."""
+    kind, ident, prop, patch = job
+    d = tempfile.mkdtemp(prefix='selftest_')
+    try:
+        shutil.copytree('/repo/pybufrkit', os.path.join(d, 'pybufrkit'), ignore=shutil.ignore_patterns('tables', '__pycache__'))
+        r = subprocess.run(['patch', '-p1', '-s', '-i', patch], cwd=d, stdout=subprocess.PIPE, stderr=subprocess.STDOUT)
+        if r.returncode != 0:
+            return (kind, ident, prop, 'stale', 'patch does not apply to the current tree')
+        r = subprocess.run([sys.executable, os.path.join(HERE, 'run.py'), prop, '--repo', d, '--no-selftest'], stdout=subprocess.PIPE, stderr=subprocess.STDOUT)
+        out = r.stdout.decode()
+        first = ''
+        for l in out.splitlines():
+            if ': rule ' in l or 'ANALYSIS-ERROR' in l:
+                first = l.strip()[:200]
+                break
+        return (kind, ident, prop, {0: 'silent', 1: 'violation', 2: 'analysis-error'}.get(r.returncode, 'exit %d' % r.returncode), first)
+    finally:
+        shutil.rmtree(d, ignore_errors=True)
+
+
+def stored_changes(prop):
+    import glob
+    root = os.path.dirname(HERE)
+    work = []
+    for d in sorted(glob.glob(os.path.join(root, 'seeded', prop + '-*'))):
+        if os.path.exists(os.path.join(d, 'patch.diff')):
+            work.append(('seeded', os.path.basename(d), prop, os.path.join(d, 'patch.diff')))
+    # every stored behaviour-preserving change must leave this check silent, whichever property it was written for
+    for d in sorted(glob.glob(os.path.join(root, 'twins', 'C*-*'))):
+        if os.path.exists(os.path.join(d, 'patch.diff')):
+            work.append(('stored-twin', os.path.basename(d), prop, os.path.join(d, 'patch.diff')))
+    return work
+
+
 def run_for(prop, jobs=16):
+    out = _run_builtin(prop, jobs)
+    work = stored_changes(prop)
+    if work:
+        with multiprocessing.Pool(min(jobs, len(work))) as pool:
+            res = pool.map(_run_patch, work)
+        out.update({'seeded': 0, 'seeded_detected': 0, 'stored_twins': 0, 'stored_twins_silent': 0})
+        out.setdefault('survivors', [])
+        out.setdefault('noisy_twins', [])
+        out.setdefault('stale', [])
+        for kind, ident, p, verdict, first in res:
+            if verdict == 'stale':
+                out['stale'].append('%s: %s' % (ident, first))
+            elif kind == 'seeded':
+                out['seeded'] += 1
+                if verdict == 'violation':
+                    out['seeded_detected'] += 1
+                else:
+                    out['survivors'].append('seeded %s (%s)' % (ident, verdict))
+            else:
+                out['stored_twins'] += 1
+                if verdict == 'silent':
+                    out['stored_twins_silent'] += 1
+                else:
+                    out['noisy_twins'].append('stored twin %s (%s: %s)' % (ident, verdict, first))
+    return out
+
+
+def _run_builtin(prop, jobs=16):
     work = []
     for ident, props, fname, old, new in MUTANTS:
         if prop in props:
